@@ -243,7 +243,7 @@ def run_property(pid, tier, seed, replay=None):
         cmd = [PY, os.path.join(VERIF, "harness", cfg["oracle"]), "--tier", tier, "--seed", str(seed), "--out", oout]
         if replay:
             cmd += ["--replay", replay]
-        rc, out, err, dt = sh(cmd, cfg.get("oracle_timeout", 300 if tier == "quick" else 1500), cwd=VERIF, env=env)
+        rc, out, err, dt = sh(cmd, cfg.get("oracle_timeout", 600 if tier == "quick" else 1800), cwd=VERIF, env=env)
         log.append("oracle rc=%d %.1fs" % (rc, dt))
         if rc != 0 or not os.path.exists(oout):
             broken.append(dict(kind="oracle-harness", name=cfg["oracle"], detail=(out + err)[-1500:]))
